@@ -27,8 +27,26 @@ def scratch_root():
     if _scratch_root is None:
         base = "/dev/shm" if os.path.isdir("/dev/shm") and os.access("/dev/shm", os.W_OK) \
             else tempfile.gettempdir()
+        _sweep_stale(base)
         _scratch_root = tempfile.mkdtemp(prefix="verif.%d." % os.getpid(), dir=base)
     return _scratch_root
+
+
+def _sweep_stale(base):
+    """scratch roots left behind by runs that were killed (time limit, OOM): their owner process is gone.
+    On a tmpfs they would keep occupying memory."""
+    try:
+        names = os.listdir(base)
+    except OSError:
+        return
+    for n in names:
+        m = re.match(r"^verif\.(\d+)\.", n)
+        if not m:
+            continue
+        pid = int(m.group(1))
+        if pid == os.getpid() or os.path.exists("/proc/%d" % pid):
+            continue
+        shutil.rmtree(os.path.join(base, n), ignore_errors=True)
 
 
 def scratch_dir(name="d"):
